@@ -86,6 +86,43 @@ def DunderSpec.builder (sp : DunderSpec) : Builder :=
 
 def DunderSpec.dunder (sp : DunderSpec) : Dunder := ⟨sp.dname, sp.builder, sp.fn⟩
 
+/-! ## The lookup API `OpMethod.get`, in the words of its documentation
+
+  "name is without underscores", reversed operators have their own name (`radd`); a symbol finds its
+  operator methods in the order <binary>, <reversed binary>, <unary>; an `operator` function finds the
+  plain and the reversed method; `"r"` the reversed ones; `1` / `2` (or `"1"` / `"2"`) by arity. -/
+
+/-- base function ↦ symbol (Python data model, written by hand) -/
+def specSymbols : List (Name × Name) := [
+  (n!"add", n!"+"), (n!"pos", n!"+"), (n!"sub", n!"-"), (n!"neg", n!"-"), (n!"mul", n!"*"),
+  (n!"truediv", n!"/"), (n!"floordiv", n!"//"), (n!"mod", n!"%"), (n!"pow", n!"**"), (n!"matmul", n!"@"),
+  (n!"rshift", n!">>"), (n!"lshift", n!"<<"), (n!"invert", n!"~"), (n!"and", n!"&"), (n!"or", n!"|"),
+  (n!"xor", n!"^"), (n!"lt", n!"<"), (n!"le", n!"<="), (n!"eq", n!"=="), (n!"ne", n!"!="), (n!"gt", n!">"),
+  (n!"ge", n!">=")]
+
+def DunderSpec.symbol (sp : DunderSpec) : Name := (specSymbols.lookup sp.base).getD []
+
+/-- the name without underscores: `add`, `radd`, `pos` -/
+def DunderSpec.name (sp : DunderSpec) : Name := (if sp.reflected then n!"r" else []) ++ sp.base
+
+/-- `repr` of the entry -/
+def DunderSpec.repr (sp : DunderSpec) : Name :=
+  n!"<" ++ sp.name ++ n!" operator method ('" ++ sp.symbol ++ n!"' symbol)>"
+
+/-- the dunders a symbol stands for: binary, reversed binary, unary -/
+def specBySymbol (sym : Name) : List Name :=
+  ((specTable.filter fun sp => sp.symbol == sym && sp.arity == 2 && !sp.reflected) ++
+   (specTable.filter fun sp => sp.symbol == sym && sp.arity == 2 && sp.reflected) ++
+   (specTable.filter fun sp => sp.symbol == sym && sp.arity == 1)).map (·.dname)
+
+/-- the dunders an `operator` function stands for: the plain one, then the reversed one -/
+def specByFunc (fn : Name) : List Name :=
+  ((specTable.filter fun sp => sp.fn == fn && !sp.reflected) ++
+   (specTable.filter fun sp => sp.fn == fn && sp.reflected)).map (·.dname)
+
+/-- what a key stands for: the entries filed under it, in insertion order -/
+def OpMethod.under (ops : List OpMethod) (k : OpKey) : List OpMethod := ops.filter fun o => o.keysK.contains k
+
 /-! ## Pointwise reading of iterator trees -/
 
 def Iter.len : Iter → Len
